@@ -364,6 +364,12 @@ func (ca *CertificateAuthority) upload(ctx context.Context, manifest *cpb.GCECer
 	if err != nil {
 		return nil, err
 	}
+	// With --keep_going an existing object is left as it is. It then holds some other key's
+	// certificate, so a fresh key version must not be recorded as certified by it.
+	if entry == nil && exists && !output.AllowOverwrite(ctx) {
+		return nil, status.Errorf(codes.AlreadyExists,
+			"object %q exists and was not overwritten; it cannot certify new key version %q", name, keyVersionName)
+	}
 	// The key is fresh, so add it to the manifest.
 	if entry == nil {
 		entries := append(manifest.Entries, &cpb.GCECertificateManifest_Entry{
